@@ -660,6 +660,9 @@ func (st *StateDB) Copy() *StateDB {
 			state.stateObjects[addr] = st.stateObjects[addr].deepCopy(state)
 			state.stateObjectsDirty[addr] = struct{}{}
 		}
+		// an object already copied above (finalised but not yet written to the trie) is dirty as well:
+		// without the mark, Commit of the copy skips its code and storage.
+		state.stateObjectsDirty[addr] = struct{}{}
 	}
 
 	for hash, logs := range st.logs {
